@@ -399,7 +399,7 @@ def c05(ctx):
             cmds.append(fn % (hx(b"pass"), hx(s)))
     nbound = 0
     for m in cfgev["E"]:
-        for s in gen.grammar_boundaries(m, rng):
+        for s in gen.grammar_boundaries(m, rng) + gen.late_bad_char_settings(m, rng):
             cmds.append("crypt_rn 0 %s %s 32768" % (hx(b"pass"), hx(s)))
             cmds.append(rng.choice(("crypt_r 0 %s %s", "crypt - %s %s", "crypt_ra 1 %s %s")) % (hx(b"pass"), hx(s)))
             nbound += 1
@@ -858,7 +858,11 @@ def c04(ctx):
     v1 = judge(ctx, ev1, "fuzz", cfgev)
     # the same replay on a checked C semantics (ASan+UBSan): a report becomes a Fault event
     ctx.build("asan")
-    ev2 = ctx.run_xcv(script[: (1500 if quick else 20000)], flavour="asan", env={"XCV_NO_RLIMIT": "1"}, timeout=1500)
+    # (under the sanitizers also: the edges of every method's setting grammar, where fixed-size decoders overflow by one)
+    edge = ["obj 0 0 0"] + ["crypt_rn 0 %s %s 32768" % (hx(b"pw"), hx(s)) for m in cfgev["E"]
+                            for s in gen.grammar_boundaries(m, rng) + gen.late_bad_char_settings(m, rng)[:6]
+                            if not (m in ("bcrypt", "bcrypt_a", "bcrypt_x", "bcrypt_y") and s[4:6] == "10")]
+    ev2 = ctx.run_xcv(edge + script[: (1500 if quick else 20000)], flavour="asan", env={"XCV_NO_RLIMIT": "1"}, timeout=1500)
     v2 = judge(ctx, ev2, "asan", config_event(ctx, "asan"))
     # the result never depends on what the object held before: zero-filled first, then junk fills
     un = []
